@@ -181,10 +181,6 @@ def run_case(case, ctx):
                 listed = [m_ for (m_, v_, t_) in case["reg"] if tuple(v_) == qv and t_ == tag]
                 # alphas are left out: the registry labels a magic with the release "in development" and those labels were
                 # renumbered between CPython versions (3.2a0/a1/a2 became a1/a2/a3); beta and candidate labels are stable
-                alpha_magics = [m_ for (m_, v_, t_) in case["reg"] if tuple(v_) == qv and t_.startswith("a")]
-                if tag.startswith("a") and alpha_magics and X.magic2int(mg) not in alpha_magics and X.magic2int(mg) in rows:
-                    ctx.violation("alpha-name-with-later-magic:%s" % name, "magics[%r] is %d, which the registry introduces after the alphas of %d.%d (%s)"
-                                  % (name, X.magic2int(mg), qv[0], qv[1], alpha_magics))
                 if listed and not tag.startswith("a"):
                     ctx.count("pre_release_names_with_registry_rows")
                     # the registry tags a magic with the *first* pre-release that wrote it; that pre-release may have written
